@@ -522,12 +522,138 @@ def translate_fingerprint(vsrc, tsrc):
     return out
 
 
+# ---------------------------------------------------------------------------------------------
+# Table._build_column_map: the loop body, as a state transformer (accessor of this column, updated `seen`)
+# ---------------------------------------------------------------------------------------------
+def _assigned(stmts):
+    out = []
+    for s in stmts:
+        if isinstance(s, ast.Assign):
+            t = s.targets[0]
+            if isinstance(t, ast.Name) and t.id not in out:
+                out.append(t.id)
+            elif isinstance(t, ast.Subscript) and isinstance(t.value, ast.Name) and t.value.id not in out:
+                out.append(t.value.id)
+        elif isinstance(s, ast.If):
+            for v in _assigned(s.body) + _assigned(s.orelse):
+                if v not in out:
+                    out.append(v)
+    return out
+
+
+def translate_build_column_map(src):
+    tree = ast.parse(src)
+    f = find_func(tree, "_build_column_map", "Table")
+    loop = [s for s in f.body if isinstance(s, ast.For)]
+    if len(loop) != 1:
+        raise TranslateError("_build_column_map: expected one loop")
+    loop = loop[0]
+    if ast.unparse(loop.target) != "(idx, col)" or ast.unparse(loop.iter) != "enumerate(self._underlying)":
+        raise TranslateError("_build_column_map: loop header")
+    inits = {ast.unparse(s.targets[0]): ast.unparse(s.value) for s in f.body if isinstance(s, ast.Assign)}
+    if inits != {"column_map": "{}", "seen": "{}"}:
+        raise TranslateError("_build_column_map: initial state")
+    OPT = {"name"}           # variables of type Option Str in the current scope
+
+    def sexpr(node, opt):
+        """string-valued expression"""
+        if isinstance(node, ast.Constant) and isinstance(node.value, str):
+            return '"' + node.value + '".toList'
+        if isinstance(node, ast.Name):
+            if node.id in opt:
+                raise TranslateError("optional used as string: " + node.id)
+            return node.id
+        if isinstance(node, ast.JoinedStr):
+            parts = []
+            for v in node.values:
+                if isinstance(v, ast.Constant):
+                    parts.append('"' + v.value + '".toList')
+                elif isinstance(v, ast.FormattedValue) and isinstance(v.value, ast.Name) and v.conversion == -1 and v.format_spec is None:
+                    parts.append("showNat idx" if v.value.id == "idx" else sexpr(v.value, opt))
+                else:
+                    raise TranslateError("f-string part")
+            return "(" + " ++ ".join(parts) + ")"
+        if isinstance(node, ast.IfExp):
+            return f"(if {bexpr(node.test, opt)} then {sexpr(node.body, opt)} else {sexpr(node.orelse, opt)})"
+        raise TranslateError("string expression " + ast.dump(node)[:80])
+
+    def bexpr(node, opt):
+        if isinstance(node, ast.Call) and isinstance(node.func, ast.Attribute) and node.func.attr == "endswith" \
+                and len(node.args) == 1 and isinstance(node.args[0], ast.Constant) and len(node.args[0].value) == 1:
+            return f"({sexpr(node.func.value, opt)}.getLast? == some '{node.args[0].value}')"
+        if isinstance(node, ast.Compare) and len(node.ops) == 1 and isinstance(node.ops[0], ast.In) \
+                and isinstance(node.comparators[0], ast.Name) and node.comparators[0].id == "seen":
+            return f"(seen.contains {sexpr(node.left, opt)})"
+        raise TranslateError("boolean expression " + ast.dump(node)[:80])
+
+    def noise(s):
+        if isinstance(s, ast.Expr):
+            return True                                           # warnings.warn(...), col._mark_tame(), docstrings
+        if isinstance(s, ast.Assign) and ast.unparse(s.targets[0]) == "other":
+            return True                                           # only feeds the warning
+        if isinstance(s, ast.If) and all(noise(x) for x in s.body) and not s.orelse:
+            return True                                           # `if col._wild or other._wild: warn`
+        return False
+
+    LIVE = ["sanitized", "seen"]
+
+    def block(stmts, opt, ind):
+        pad = " " * ind
+        stmts = [s for s in stmts if not noise(s)]
+        if not stmts:
+            return pad + "(" + ", ".join(LIVE) + ")"
+        s, rest = stmts[0], stmts[1:]
+        if isinstance(s, ast.Assign):
+            t = s.targets[0]
+            if isinstance(t, ast.Name) and ast.unparse(s.value) == "_sanitize_user_name(col._name)":
+                return pad + f"let {t.id} := sanitize name\n" + block(rest, opt | {t.id}, ind)
+            if isinstance(t, ast.Name):
+                return pad + f"let {t.id} := {sexpr(s.value, opt)}\n" + block(rest, opt - {t.id}, ind)
+            if isinstance(t, ast.Subscript) and ast.unparse(t.value) == "seen":
+                return pad + f"let seen := {sexpr(t.slice, opt)} :: seen\n" + block(rest, opt, ind)
+            if isinstance(t, ast.Subscript) and ast.unparse(t.value) == "column_map":
+                if ast.unparse(s) != "column_map[sanitized] = idx":
+                    raise TranslateError("column_map assignment")
+                return block(rest, opt, ind)                       # the dict update is the caller's `upsert`
+            raise TranslateError("assignment " + ast.unparse(s)[:60])
+        if isinstance(s, ast.If):
+            test = ast.unparse(s.test)
+            m = None
+            for var, pyv in (("name", "col._name"),) + tuple((v, v) for v in opt):
+                if test == f"{pyv} is not None":
+                    m = (var, s.body, s.orelse)
+                elif test == f"{pyv} is None":
+                    m = (var, s.orelse, s.body)
+            if m:
+                var, some_b, none_b = m
+                return (pad + f"match {var} with\n" + pad + f"| some {var} =>\n" + block(some_b + rest, opt - {var}, ind + 2) + "\n"
+                        + pad + "| none =>\n" + block(none_b + rest, opt - {var}, ind + 2))
+            return (pad + f"if {bexpr(s.test, opt)} then\n" + block(s.body + rest, opt, ind + 2) + "\n" + pad + "else\n"
+                    + block(s.orelse + rest, opt, ind + 2))
+        raise TranslateError("statement " + type(s).__name__)
+
+    body = block(loop.body, set(OPT), 2)
+    return ["/-- translated from the loop body of `Table._build_column_map` (`name` is `col._name` lower-cased as `_sanitize_user_name`\n"
+            "    sees it, `sanitize` is `_sanitize_user_name`, `seen` the keys of the dict `seen`); returns the accessor assigned to\n"
+            "    `column_map[…] = idx` and the updated `seen` -/\n"
+            "def buildColumnMapStepT (sanitize : List Char → Option (List Char)) (showNat : Nat → List Char)\n"
+            "    (seen : List (List Char)) (idx : Nat) (name : Option (List Char)) : List Char × List (List Char) :=\n" + body,
+            "/-- translated from `Table._build_column_map`: `column_map = {}`, `seen = {}`, the loop over `enumerate(self._underlying)` with\n"
+            "    `column_map[sanitized] = idx` (a dict assignment: overwrite in place or append), `return column_map` -/\n"
+            "def buildColumnMapT (sanitize : List Char → Option (List Char)) (showNat : Nat → List Char)\n"
+            "    (names : List (Option (List Char))) : Dict (List Char) Nat :=\n"
+            "  (names.zipIdx.foldl (fun (st : Dict (List Char) Nat × List (List Char)) p =>\n"
+            "      let r := buildColumnMapStepT sanitize showNat st.2 p.2 p.1\n"
+            "      (Dict.upsert st.1 r.1 (fun _ => p.2), r.2)) ([], [])).1"]
+
+
 def generate(src_dir):
     """-> (lean text, list of (item, error))"""
     parts, errors = [], []
     items = [("typing", lambda: translate_typing(open(os.path.join(src_dir, "typing.py")).read())),
              ("slice_length", lambda: [translate_slice_length(open(os.path.join(src_dir, "typeutils.py")).read())]),
              ("resolve_binary_name", lambda: [translate_resolve_binary_name(open(os.path.join(src_dir, "table.py")).read())]),
+             ("build_column_map", lambda: translate_build_column_map(open(os.path.join(src_dir, "table.py")).read())),
              ("fingerprint", lambda: translate_fingerprint(open(os.path.join(src_dir, "vector.py")).read(),
                                                            open(os.path.join(src_dir, "table.py")).read()))]
     for name, fn in items:
